@@ -6,19 +6,15 @@
             closes it after the k-th answer, or raises; evaluate_bounded.
 -/
 import Yld.Model.Codec
+import Yld.Generated.Tables
 namespace Yld
 
-/-- The keys under which `_set_builtin_predicates` registers the builtins. -/
-def builtinDefs : Defs :=
-  [("=_2", [.builtin "="]), ("\\=_2", [.builtin "\\="]), ("findall_3", [.builtin "findall"]),
-   ("call_n", [.builtin "call"]), ("once_1", [.builtin "once"]), ("assertz_1", [.builtin "assertz"]),
-   ("asserta_1", [.builtin "asserta"]), ("retract_1", [.builtin "retract"]),
-   ("retractall_1", [.builtin "retractall"])]
+/-- The keys under which `_set_builtin_predicates` registers the builtins
+    (table generated from engine.py by harness/extract.py). -/
+def builtinDefs : Defs := Generated.builtins.map fun (name, key, _) => (key, [Def.builtin name])
 
 /-- Keys of `_set_default_eval_context` (the API names handed to loaded code). -/
-def apiNames : List String :=
-  ["__builtins__", "variable", "atom", "functor", "functor1", "functor2", "functor3", "listpair",
-   "makelist", "ATOM_NIL", "unify", "match_dynamic", "query", "True", "False"]
+def apiNames : List String := Generated.apiNames
 
 /-- `eval_blacklist = list(eval_context.keys())` at construction time. -/
 def defaultBlacklist : List String := apiNames ++ builtinDefs.map (·.1)
@@ -79,12 +75,13 @@ structure QueryResult where
   answers : List Term
   ending : Option Sig
   bound : Nat
+  cyc : Bool := false
 deriving Repr, Inhabited
 
 def Engine.query (e : Engine) (mode : Mode) (fuel : Nat) (name : String) (args : List Term)
     (sched : Sched) : Engine × QueryResult :=
   let cfg : Cfg := { blacklist := e.blacklist, defs := e.defs, mode := mode }
-  let w0 := { e.w with acc := [] :: e.w.acc }
+  let w0 := { e.w with acc := [] :: e.w.acc, cyc := false }
   let (w1, r) :=
     match sched with
     | .stop 0 => (w0, some Sig.stop)
@@ -92,7 +89,7 @@ def Engine.query (e : Engine) (mode : Mode) (fuel : Nat) (name : String) (args :
     | _ => Yld.query cfg fuel name args (topConsumer fuel args sched) w0
   let answers := w1.acc.headD []
   let w2 := { w1 with acc := w1.acc.tail }
-  ({ e with w := w2 }, { answers := answers, ending := r, bound := w2.boundCount })
+  ({ e with w := w2 }, { answers := answers, ending := r, bound := w2.boundCount, cyc := w2.cyc })
 
 /-- `assert_fact` through the API. -/
 def Engine.assertFact (e : Engine) (fuel : Nat) (name : String) (args : List Term) (append : Bool) :
